@@ -68,18 +68,29 @@ func superviseChild(prop, tier string, seed uint64, out string) int {
 	crumb := out + ".crumb"
 	os.Remove(crumb)
 	os.Remove(out)
-	cmd := exec.Command(os.Args[0], os.Args[1:]...)
-	cmd.Env = append(os.Environ(), "VERIF_CHILD=1", "VERIF_CRUMB="+crumb)
 	var tail bytes.Buffer
-	cmd.Stdout = os.Stdout
-	cmd.Stderr = io.MultiWriter(os.Stderr, &tail)
-	err := cmd.Run()
+	var err error
 	defer os.Remove(crumb)
-	if _, statErr := os.Stat(out); statErr == nil {
-		if err != nil {
-			return 1
+	// The check is deterministic (one PRNG state): a kill caused by the implementation on a generated case repeats at the
+	// same case. A child that dies once and completes when it is started again was ended by the environment (no thread
+	// or memory left while other jobs load the machine) — it is not evidence about the implementation.
+	for attempt := 1; attempt <= 2; attempt++ {
+		tail.Reset()
+		os.Remove(out)
+		cmd := exec.Command(os.Args[0], os.Args[1:]...)
+		cmd.Env = append(os.Environ(), "VERIF_CHILD=1", "VERIF_CRUMB="+crumb)
+		cmd.Stdout = os.Stdout
+		cmd.Stderr = io.MultiWriter(os.Stderr, &tail)
+		err = cmd.Run()
+		if _, statErr := os.Stat(out); statErr == nil {
+			if err != nil {
+				return 1
+			}
+			return 0
 		}
-		return 0
+		if attempt == 1 {
+			fmt.Fprintln(os.Stderr, "check child ended without a result; starting it once more to tell an environment failure from a kill by the implementation")
+		}
 	}
 	res := &vh.Result{Property: prop, Tier: tier, Seed: seed, Distribution: map[string]int{}, Extra: map[string]interface{}{}}
 	var last map[string]interface{}
